@@ -17,6 +17,7 @@ import (
 	"golang.org/x/sys/unix"
 	"verif/evid"
 	"verif/fsmodel"
+	"verif/memfs"
 	"verif/par"
 	"verif/scratch"
 )
@@ -350,6 +351,14 @@ func c17Cases(tier string) []c11Case {
 	if tier == "thorough" {
 		inc = patternLists(2, c11Patterns)
 	}
+	// hard-link groups of special files
+	for _, lab := range fsmodel.Partitions(4) {
+		tf := c11Tree(lab, false, fsmodel.Fifo)
+		for _, under := range []string{"disk", "mem", "filter"} {
+			out = append(out, c11Case{Tree: tf, Under: under})
+			out = append(out, c11Case{Tree: tf, Under: under, Exclude: []string{"a/x"}})
+		}
+	}
 	for _, lab := range fsmodel.Partitions(4) {
 		t := c11Tree(lab, false, fsmodel.File)
 		for _, under := range []string{"disk", "filter", "map", "subdir", "mem"} {
@@ -363,12 +372,91 @@ func c17Cases(tier string) []c11Case {
 	return out
 }
 
+// limitWriter fails once more than n bytes have been written.
+type limitWriter struct {
+	n      int
+	failed bool
+}
+
+func (w *limitWriter) Write(p []byte) (int, error) {
+	if len(p) > w.n {
+		k := w.n
+		w.n = 0
+		w.failed = true
+		return k, fmt.Errorf("sink full")
+	}
+	w.n -= len(p)
+	return len(p), nil
+}
+
+// judgeC17Sink: a sink that fails after k bytes, for every k; and a source whose last
+// file delivers fewer bytes than its stat announces. WriteTar must not report success
+// for a stream that is not a complete archive.
+func judgeC17Sink(tree fsmodel.Tree) (string, string, int) {
+	var buf bytes.Buffer
+	if err := fsutil.WriteTar(context.Background(), memfs.New(tree), &buf); err != nil {
+		return "writetar-failed", err.Error(), 0
+	}
+	total := buf.Len()
+	n := 0
+	for k := 0; k < total; k++ {
+		w := &limitWriter{n: k}
+		err := fsutil.WriteTar(context.Background(), memfs.New(tree), w)
+		n++
+		if w.failed && err == nil {
+			return "sink-failure-swallowed", fmt.Sprintf("the sink failed after %d of %d bytes but WriteTar returned nil", k, total), n
+		}
+	}
+	// the last regular file in walk order is shorter than announced
+	s := tree.Clone()
+	s.Sort()
+	last := -1
+	for i, nd := range s {
+		if nd.Kind == fsmodel.File && len(nd.Data) > 1 {
+			last = i
+		}
+	}
+	if last >= 0 {
+		m := memfs.New(tree)
+		lp := s[last].Path
+		m.OpenHook = func(p string, rc io.ReadCloser) (io.ReadCloser, error) {
+			if p == lp {
+				return io.NopCloser(io.LimitReader(rc, int64(len(s[last].Data)/2))), nil
+			}
+			return rc, nil
+		}
+		var b2 bytes.Buffer
+		n++
+		if err := fsutil.WriteTar(context.Background(), m, &b2); err == nil {
+			if _, rerr := readTar(b2.Bytes()); rerr != nil || true {
+				return "short-file-accepted", fmt.Sprintf("%s delivered %d of %d announced bytes but WriteTar returned nil", lp, len(s[last].Data)/2, len(s[last].Data)), n
+			}
+		}
+	}
+	return "", "", n
+}
+
 func runC17(r *evid.Run) {
 	r.Technique = "bounded-exhaustive enumeration of (tree, view configuration); every case one real WriteTar read back with archive/tar and extracted by a reference extractor; oracle = member-by-member comparison with the view's own walk + snapshot equality of the extraction"
 	r.Rule = "one evaluation = one archive (written, parsed, compared, extracted); non-trivial = archives with >=2 members; states = distinct cases"
 	r.Assume = []string{"archive/tar is the reference reader", "runs as root on tmpfs"}
 	cases := c17Cases(r.Tier)
 	r.Set("cases", len(cases))
+	// sink faults at every byte position of two small archives
+	sinkTrees := []fsmodel.Tree{
+		{{Path: "a", Kind: fsmodel.File, Perm: 0644, Mtime: fsmodel.T0, Data: fsmodel.Content(1, 700)}, {Path: "d", Kind: fsmodel.Dir, Perm: 0755, Mtime: fsmodel.T0},
+			{Path: "d/z", Kind: fsmodel.File, Perm: 0644, Mtime: fsmodel.T0, Data: fsmodel.Content(2, 1000)}},
+		{{Path: "only", Kind: fsmodel.File, Perm: 0644, Mtime: fsmodel.T0, Data: fsmodel.Content(3, 513)}},
+	}
+	for _, st := range sinkTrees {
+		st.Sort()
+		k, m, n := judgeC17Sink(st)
+		r.Evaluations.Add(int64(n))
+		r.Add("sink_cut_points", int64(n))
+		if k != "" {
+			r.Violate(k, m, c11Case{Tree: st, Under: "sink"})
+		}
+	}
 	par.Do(len(cases), par.Workers(), func(i int) {
 		c := cases[i]
 		key, msg := judgeC17(c)
@@ -390,6 +478,13 @@ func replayC17(raw json.RawMessage) string {
 	var c c11Case
 	if err := json.Unmarshal(raw, &c); err != nil {
 		return "bad case: " + err.Error()
+	}
+	if c.Under == "sink" {
+		k, m, _ := judgeC17Sink(c.Tree)
+		if k == "" {
+			return ""
+		}
+		return k + ": " + m
 	}
 	k, m := judgeC17(c)
 	if k == "" {
